@@ -378,6 +378,7 @@ fn check_instr_case(d: &mut Driver, r: &mut Report, spec: &StateSpec, p: &PushPr
     let mut ptoks = Vec::new();
     prog_tokens(p, &mut ptoks);
     let req = format!("push perform {} | {}", spec.request_body(), ptoks.join(" "));
+    crate::watch::note(&req);
     let (real, unchanged) = real_perform(spec, p);
     let (impl_r, spec_r) = split_reply(&d.ask(&req));
     let model = render_model(&impl_r);
@@ -402,6 +403,56 @@ fn check_instr_case(d: &mut Driver, r: &mut Report, spec: &StateSpec, p: &PushPr
     }
     if wf && !unbound && mask_payload(&real) != mask_payload(&spec_s) {
         r.violate(json!({"prop": "C01", "case": req, "real": real, "spec": spec_s, "what": "outcome, stacks or output differ from what the instruction semantics (signature table / action tables) prescribe"}));
+    }
+}
+
+/// The named constructors and `From` conversions of the instruction types are how programs are written by hand
+/// (examples, tests, users): each must build exactly the instruction it is named after.  Model-free.
+fn check_constructors(rep: &mut Report) {
+    use push::genome::plushy::PushGene;
+    use push::instruction::printing::{Print, PrintLn, PrintNewline, PrintPeriod, PrintSpace, PrintString};
+    use push::instruction::Instruction;
+    let of = OrderedFloat;
+    let table: Vec<(&str, PushInstruction)> = vec![
+        ("I.Pop", IntInstruction::pop().into()), ("I.Push:-7", IntInstruction::push(-7).into()), ("I.Dup", IntInstruction::dup().into()),
+        ("I.Swap", IntInstruction::swap().into()), ("I.IsEmpty", IntInstruction::is_empty().into()),
+        ("I.StackDepth", IntInstruction::stack_depth().into()), ("I.Flush", IntInstruction::flush().into()),
+        ("I.Negate", IntInstruction::negate().into()), ("I.Abs", IntInstruction::abs().into()), ("I.Clamp", IntInstruction::clamp().into()),
+        ("F.Pop", FloatInstruction::pop().into()), ("F.Push:4612811918334230528", FloatInstruction::push(2.5).into()),
+        ("F.Push:4612811918334230528", FloatInstruction::push_ordered_float(of(2.5)).into()),
+        ("F.Dup", FloatInstruction::dup().into()), ("F.Swap", FloatInstruction::swap().into()), ("F.IsEmpty", FloatInstruction::is_empty().into()),
+        ("F.StackDepth", FloatInstruction::stack_depth().into()), ("F.Flush", FloatInstruction::flush().into()),
+        ("B.Push:t", BoolInstruction::push(true).into()), ("B.Push:f", BoolInstruction::push(false).into()),
+        ("E.Noop", ExecInstruction::noop().into()), ("E.DupBlock", ExecInstruction::dup_block().into()), ("E.When", ExecInstruction::when().into()),
+        ("E.Unless", ExecInstruction::unless().into()), ("E.IfElse", ExecInstruction::if_else().into()),
+        ("B.Push:t", PushInstruction::push_bool(true)), ("I.Push:9223372036854775807", PushInstruction::push_int(i64::MAX)),
+        ("F.Push:13835058055282163712", PushInstruction::push_float(of(-2.0))),
+        ("I.Print", IntInstruction::Print(Print::new()).into()), ("I.PrintLn", IntInstruction::PrintLn(PrintLn::new()).into()),
+        ("P.Space", PushInstruction::PrintSpace(PrintSpace::new())), ("P.Newline", PushInstruction::PrintNewline(PrintNewline::new())),
+        ("P.Period", PushInstruction::PrintPeriod(PrintPeriod::new())), ("P.String:6869", PushInstruction::PrintString(PrintString::new("hi".to_string()))),
+    ];
+    for (want, ins) in table {
+        let mut t = Vec::new();
+        instr_tokens(&ins, &mut t);
+        let got = t.join(" ");
+        rep.case(&format!("ctor {want}"), true);
+        rep.hit("constructor / From conversion");
+        if got != want {
+            rep.violate(json!({"prop": "C01", "case": format!("constructor or conversion named {want}"), "real": got, "what": "a named constructor / From conversion builds a different instruction than the one it is named after"}));
+        }
+        // PushProgram::from / PushGene::from wrap the instruction unchanged; a boxed dyn Instruction performs like the instruction
+        let pp: PushProgram = ins.clone().into();
+        let pg: PushGene = ins.clone().into();
+        if pp != PushProgram::Instruction(ins.clone()) || pg != PushGene::Instruction(ins.clone()) {
+            rep.violate(json!({"prop": "C01", "case": format!("PushProgram::from / PushGene::from of {want}"), "real": format!("{pp:?} / {pg:?}"), "what": "the conversion into a program element / gene changes the instruction"}));
+        }
+        let spec = StateSpec { max_steps: 10, exec_max: 4, int_max: 4, float_max: 4, bool_max: 4, exec: vec![], ints: vec![3, i64::MIN], floats: vec![1.5, -0.0], bools: vec![true, false], inputs: vec![] };
+        let direct = match ins.perform(spec.build()) { Ok(s) => format!("ok {}", dump(&s)), Err(e) => format!("err {}", dump(&e.into_state())) };
+        let boxed: Box<dyn Instruction<PushState, Error = push::instruction::instruction_error::PushInstructionError>> = Box::new(ins.clone());
+        let via = match boxed.perform(spec.build()) { Ok(s) => format!("ok {}", dump(&s)), Err(e) => format!("err {}", dump(&e.into_state())) };
+        if direct != via {
+            rep.violate(json!({"prop": "C01", "case": format!("Box<dyn Instruction> of {want}"), "real": via, "spec": direct, "what": "the boxed instruction performs differently from the instruction itself"}));
+        }
     }
 }
 
@@ -510,6 +561,7 @@ pub fn run_instr(cfg: &Cfg) -> Report {
         let only_model: Vec<_> = model_names.iter().filter(|n| !real_names.contains(n)).collect();
         rep.disagree(json!({"case": "inventory", "real": format!("only in the crates: {only_real:?}"), "impl": format!("only in the model: {only_model:?}")}));
     }
+    check_constructors(&mut rep);
     rep.exhaustive = true;
     rep.notes.push(format!("{} instructions/programs x {} fill patterns x {}^4 capacity patterns x {} value rotations = {} single-step cases; operand sweep: every instruction x all {}x{} int pairs, {}x{} float pairs, 8 bool triples x {{roomy, exactly full}} = {} cases; inventory of {} instruction names cross-checked", cat.len(), fills, nc, rots, total, ni, ni, nfl, nfl, total2, real_names.len()));
     rep
@@ -544,7 +596,7 @@ impl<'a> Gen<'a> {
     fn instr(&mut self) -> PushInstruction {
         match self.g.below(20) {
             0..=6 => self.lit(),
-            7 => VariableName::from(*self.g.pick(&["x", "y", "z"])).into(),
+            7 => VariableName::from(*self.g.pick(&["x", "y", "z", "X", "xy"])).into(),
             8 => match self.g.below(4) {
                 0 => PushInstruction::PrintSpace(Default::default()),
                 1 => PushInstruction::PrintNewline(Default::default()),
@@ -622,7 +674,9 @@ pub fn run_run(cfg: &Cfg) -> Report {
         let spec = StateSpec {
             max_steps: steps, exec_max: em, int_max: im, float_max: fm, bool_max: bm,
             exec: program, ints, floats: floats_v, bools,
-            inputs: vec![("x".into(), LitV::I(*g.pick(&INTS))), ("y".into(), LitV::F(*g.pick(&fl))), ("z".into(), LitV::B(g.chance(1, 2)))],
+            // `X` and `xy` differ from `x` only in letter case / by a suffix and are bound to values of other types
+            inputs: vec![("x".into(), LitV::I(*g.pick(&INTS))), ("y".into(), LitV::F(*g.pick(&fl))), ("z".into(), LitV::B(g.chance(1, 2))),
+                         ("X".into(), LitV::B(g.chance(1, 2))), ("xy".into(), LitV::F(*g.pick(&fl)))],
         };
         // the configured limit, plus smaller limits (intermediate states of the same run)
         let mut limits = vec![steps];
@@ -634,6 +688,7 @@ pub fn run_run(cfg: &Cfg) -> Report {
             let mut sp = spec.clone();
             sp.max_steps = l;
             let req = format!("push run {}", sp.request_body());
+            crate::watch::note(&req);
             let (real, within) = real_run(&sp);
             let (impl_r, spec_r) = split_reply(&d.ask(&req));
             // reply: `<res> | <steps> | state…`; the real run does not report the step count
@@ -702,7 +757,9 @@ pub fn run_det(cfg: &Cfg) -> Report {
     run_sharded(&cfg.driver, cfg.threads, n, || Report::new("push-det", RULE_DET), |d, r, idx| {
         let mut g = SplitMix::derive(seed ^ 0x16, idx);
         let fl = floats();
-        let names = ["a", "b", "c", "d"];
+        // plain names, and names that differ only in letter case / by a prefix (a lookup that normalises or
+        // prefix-matches names would confuse them)
+        let names = *g.pick(&[["a", "b", "c", "d"], ["x", "X", "xx", "Xx"], ["in1", "IN1", "in10", "In1"], ["é", "É", "e", "E"], ["a", "b", "c", "d"]]);
         let k = 1 + g.below(4) as usize;
         let inputs: Vec<(String, LitV)> = (0..k).map(|j| (names[j].to_string(), match g.below(3) {
             0 => LitV::I(*g.pick(&INTS)), 1 => LitV::F(*g.pick(&fl)), _ => LitV::B(g.chance(1, 2)) })).collect();
